@@ -4,12 +4,26 @@
 package c19
 
 import (
+	"fmt"
 	"os"
+	"time"
 
 	"verifharness/lib"
 )
 
 var sampled = map[string]int{}
+
+// slow reports (stderr, evidence counter) a case that took suspiciously long: some wait ran into
+// its watchdog without this being a failure by itself.
+func slow(c *lib.Ctx, what string, f func() string) string {
+	t0 := time.Now()
+	key := f()
+	if d := time.Since(t0); d > watchdog/2 {
+		c.Hit("slow-case")
+		fmt.Fprintf(os.Stderr, "[C19] slow case (%.1fs): %s %s\n", d.Seconds(), what, key)
+	}
+	return key
+}
 
 // clip keeps evidence samples readable.
 func clip(lines []string) []string {
@@ -20,13 +34,15 @@ func clip(lines []string) []string {
 }
 
 func Run(c *lib.Ctx) {
-	c.Rule = "three families. frames: random workflows (chain of 1–3 OneToOne nodes | OneToOne with out+error ports | OneToMany fan-out | ManyToOne join) inside a real symbol.Table with a runtime.Agent attached through the table's load/unload hooks, 1–2 processes, ≤6 (quick) / ≤12 (thorough) writes interleaved with sink answers (several requests in flight), Agent.Frames per port against Uniflow.Agent fed the harness's own packet-hook log, and against the oracle (k-th request with k-th answer of the same port); non-trivial = ≥8 hook events, distinct by workflow+schedule. transparency: the same families with one request in flight per source and process, run with and without the agent, every accepted-count / sink arrival / source response compared in order; non-trivial = ≥2 responses. breakpoints: real runtime.Debugger with one breakpoint on a symbol's in-port, ≤3 packets (own process each) paused, every sequence over {packet, Pause, Step, RemoveBreakpoint, Debugger.Close, Breakpoint.Close} of length ≤2 (quick) / ≤4 (thorough) containing a remove/close plus random ones of length ≤7, observations (packets resumed, which calls returned with what) after every call against the set of quiescent states of Uniflow.Breakpoint under all schedules; non-trivial = ≥1 packet and ≥1 call"
+	c.Rule = "four families over random workflows (chain of 1–3 OneToOne nodes | OneToOne with out+error ports | OneToMany fan-out | ManyToOne join; 2/5 of the node actions are held back on harness gates) inside a real symbol.Table, 1–2 processes, schedules of source writes / releases of held actions / sink answers with 1–4 requests in flight per source and process (≤6 writes quick, ≤12 thorough; join workflows lock-step per source). frames: runtime.Agent attached through the table's load/unload hooks, Agent.Frames per port against Uniflow.Agent fed the harness's own packet-hook log and against the oracle (k-th request with k-th answer of the same port, also with several requests open on one port); 1/5 of the cases terminate process 0 in mid-flight (its frames are an observation only); non-trivial = ≥8 hook events, distinct by workflow+schedule. transparency: the same schedule run with and without the agent, every accepted-count / action entered / sink arrival / source response compared in order; non-trivial = ≥2 responses. open-exit: a process is terminated while its port is being opened (by an open hook running just before the agent's | at a verif yield point of Open | by a racing goroutine, 4–12 fresh processes), then ordinary requests of other processes, with/without agent, every agent call under a watchdog. breakpoints: real runtime.Debugger with (a) one breakpoint on a symbol's in-port, ≤3 packets (own process each) paused, every sequence over {packet, Pause, Step, RemoveBreakpoint, Debugger.Close, Breakpoint.Close} of length ≤2 (quick) / ≤4 (thorough) containing a remove/close plus random ones of length ≤7, and (b) 3–5 breakpoints in one debugger (one per symbol of 3–5 parallel chains), a packet paused on every one of them, then Pause/Step/extra packets, then Debugger.Close or RemoveBreakpoint in arbitrary order (some or all, optionally followed by Close), then one more packet per symbol (must pass: no leftover watcher); observations after every call (packets resumed, which calls returned with what) against the reachable states of the n-breakpoint Uniflow.Breakpoint under all schedules; non-trivial = ≥1 packet and ≥1 call"
 	c.Assumptions = []string{
 		"frames: packets, ports, symbols and processes are harness-assigned integers; the order of hook events fed to the model is the order in which the harness's own packet hooks (installed like the agent's, running just before them under the same endpoint lock) saw them; columns are compared per port (the order of frames of different ports in Agent.Frames depends on goroutine scheduling and is not compared), Agent.Frames is read only at quiescence",
 		"frames: that the k-th answer on a port answers the k-th request on it is C01's contract (Reader.Receive / Writer.receive are FIFO by construction); the oracle and theorem C19.frame_pairs take it as the hypothesis",
-		"transparency is a differential over deterministic hand-over schedules with at most one request in flight per source and process: with several requests pipelined through a OneToOne/OneToMany node the flow machinery itself is non-deterministic (an answer is occasionally dropped or replaced by an empty one, ~1% of runs, with or without the agent – C02's subject), so pipelined schedules are used for the frames part only",
+		"transparency is a differential over deterministic hand-over schedules: after every step the harness waits for exactly the events its reference reading of the workflow predicts (actions entered in gated nodes, sink arrivals, source responses) before the next step, the same on both runs; goroutine interleavings inside one step are the Go scheduler's. ManyToOne workflows keep one request in flight per source (a queued unpaired packet behind unanswered ones is C02's subject)",
+		"frames recorded for a process that was terminated with requests in flight (the exit hook deletes frames[proc], later drop answers re-create it) are reported in the evidence as an observation, not judged: C19 speaks about pairing, C05 about what outlives a process",
+		"Debugger.Close does not Unwatch its breakpoints: the closed breakpoints stay in Agent.watchers and every later frame still calls their OnFrame, which falls through both selects on the closed done channel – packets are not held (scenarios with packets after dclose: all resumed), so C19's 'closing the debugger resumes every packet it had paused' holds; it is a leak of watchers, not a violation",
 		"the theorem C19.hooks_transparent is about hooks that are functions of (flow state, call, observer state): that the real hooks are (when no watcher blocks) is what the differential supports; symbols are inserted upstream-first so that the table has materialised every linked in-port before Agent.Load walks sym.Ins()",
-		"breakpoints: the mutexes are derived from program counters; the reader/writer mutex held around a packet hook is not modelled (each paused packet uses its own process, hence its own reader); ctx is never cancelled; a call the model says may still be blocked is not waited for, a call (or packet) every quiescent model state has returned (resumed) is awaited with a 10 s watchdog; components on which the model's quiescent states disagree are compared as wildcards",
+		"breakpoints: before the next call the harness waits for what every quiescent model state agrees on (packets resumed, calls returned, d.rmu held – probe VerifPaused –, b.current of a breakpoint being a given packet – public Breakpoint.Frame) and the model's state set is pruned to the states compatible with these facts (driver line `must`); the mutexes are derived from program counters; the reader/writer mutex held around a packet hook is not modelled (each paused packet uses its own process, hence its own reader); ctx is never cancelled; a call the model says may still be blocked is not waited for, a call (or packet) every quiescent model state has returned (resumed) is awaited with a 10 s watchdog; components on which the model's quiescent states disagree are compared as wildcards",
 	}
 	c.Trusted = []string{"Go scheduler / channels / sync (the small-step machine of Uniflow.Breakpoint is a model of them)", "harness/c19 reference reading of the workflows (which sink sees which value)"}
 	rng := lib.NewRNG(c.Seed)
@@ -46,7 +62,7 @@ func Run(c *lib.Ctx) {
 			switch cc.kind {
 			case "frames":
 				sc.Begin()
-				c.Count(framesCase(c, cc.fs, cc.nsess, cc.ops, sc, &fails))
+				c.Count(framesCase(c, cc.fs, cc.nsess, cc.ops, false, sc, &fails))
 			case "transp":
 				c.Count(transparencyCase(c, cc.fs, cc.nsess, cc.ops, &fails))
 			case "bp":
@@ -67,9 +83,13 @@ func Run(c *lib.Ctx) {
 		r := rng.Fork()
 		fs := genFlow(r)
 		nsess := r.Range(1, 2)
-		ops := genOps(r, fs, nsess, c.Scale(6, 12), false)
+		ops := genOps(r, fs, nsess, c.Scale(6, 12), r.Range(1, 4))
 		sc.Begin()
-		c.Count(framesCase(c, fs, nsess, ops, sc, &fails))
+		early := r.Chance(1, 5)
+		if early { // stop in mid-flight: requests unanswered, actions held
+			ops = ops[:len(ops)/2+1]
+		}
+		c.Count(slow(c, "frames", func() string { return framesCase(c, fs, nsess, ops, early, sc, &fails) }))
 	}
 
 	// (1) transparency differential
@@ -81,8 +101,15 @@ func Run(c *lib.Ctx) {
 		r := rng.Fork()
 		fs := genFlow(r)
 		nsess := r.Range(1, 2)
-		ops := genOps(r, fs, nsess, c.Scale(6, 12), true)
-		c.Count(transparencyCase(c, fs, nsess, ops, &fails))
+		ops := genOps(r, fs, nsess, c.Scale(6, 12), r.Range(1, 4))
+		c.Count(slow(c, "transparency", func() string { return transparencyCase(c, fs, nsess, ops, &fails) }))
+	}
+
+	// (1b) processes that terminate while a port of theirs is being opened
+	if !only {
+		for i := 0; i < c.Scale(24, 300); i++ {
+			c.Count(slow(c, "openexit", func() string { return openExitCase(c, rng.Fork(), []string{"hook", "yield", "race"}[i%3], &fails) }))
+		}
 	}
 
 	// (3) breakpoints
@@ -100,8 +127,12 @@ func Run(c *lib.Ctx) {
 					c.Hit("bp-skipped-model-state-space-over-budget")
 					continue
 				}
+				if bpBroken {
+					c.Hit("bp-skipped-after-a-stuck-scenario")
+					continue
+				}
 				sc.Begin()
-				c.Count(bpCase(c, s, must[i], sc, &fails))
+				c.Count(slow(c, "bp "+s.String(), func() string { return bpCase(c, s, must[i], sc, &fails) }))
 			}
 		}
 	}
